@@ -56,6 +56,8 @@ COMMANDS = [
     ("log", ["log", "--oneline", "-2"]),
     ("add", ["add", "-A"]),
     ("stash", ["stash"]),
+    ("stash_pop", ["stash", "pop"]),
+    ("stash_apply", ["stash", "apply"]),
     ("reset_soft", ["reset", "--soft", "HEAD~1"]),
     ("reset_hard", ["reset", "--hard", "HEAD~1"]),
     ("checkout_branch", ["checkout", "other"]),
@@ -72,7 +74,7 @@ def prepare(base, name):
     """a repository with history, a second branch, pending AI work (checkpoints + INITIAL) and a stash"""
     sim = Sim(base, name)
     sim.init({"a.txt": "a1\na2\na3\n", "b.txt": "b1\nb2\n", "o.txt": "o\n", "p.txt": "p1\np2\np3\np4\n", "q.txt": "q1\n",
-              "h.txt": "h1\n"})
+              "h.txt": "h1\n", "g.txt": "g1\ng2\n"})
     # an EARLIER, long finished cherry-pick of an AI commit (content replay: p.txt differs on main), and later commits
     # with their own notes: nothing a later command does — faulted or not — may touch those notes
     sim.realgit("checkout", "-q", "-b", "picksrc")
@@ -94,6 +96,11 @@ def prepare(base, name):
     sim.write("h.txt", "h1\nh2\n")
     sim.realgit("add", "-A")
     sim.git("commit", "-q", "-m", "H3: human only")
+    # an OLDER stash entry that carries agent work (note under refs/notes/ai-stash) ...
+    sim.checkpoint_human(["g.txt"])
+    sim.write("g.txt", "g1\nAI-g1\nAI-g2\ng2\n")
+    sim.checkpoint_ai("s1", ["g.txt"])
+    sim.git("stash")
     sim.realgit("branch", "other")
     sim.realgit("checkout", "-q", "-b", "upstream")
     sim.write("u.txt", "u1\n")
@@ -106,6 +113,9 @@ def prepare(base, name):
     sim.write("o.txt", "o\no2\n")
     sim.realgit("add", "o.txt")
     sim.git("commit", "-q", "-m", "partial: leaves INITIAL for a.txt")
+    # ... and a NEWER one that holds a person's edit of the same file (only that file is stashed)
+    sim.write("g.txt", "g1\nHUM-g1\nHUM-g2\ng2\n")
+    sim.git("stash", "push", "--", "g.txt")
     sim.checkpoint_human(["b.txt"])
     sim.write("b.txt", "b1\nAI-b\nAI-c\nb2\n")
     sim.checkpoint_ai("s2", ["b.txt"])
@@ -123,7 +133,7 @@ def clone_state(sim, base, name):
     return s2
 
 
-TRUTH = {"AI-1": "s1", "AI-2": "s1", "AI-b": "s2", "AI-p1": "s1", "AI-p2": "s1", "AI-q": "s2"}
+TRUTH = {"AI-1": "s1", "AI-2": "s1", "AI-b": "s2", "AI-p1": "s1", "AI-p2": "s1", "AI-q": "s2", "AI-g1": "s1", "AI-g2": "s1"}
 
 
 def notes_map(sim):
@@ -149,6 +159,10 @@ def after_checks(sim, notes_before=None):
     rc, _, err = sim.git("commit", "-q", "-m", "follow-up", "--", "z.txt")
     if rc != 0 and not any(os.path.exists(os.path.join(sim.repo, ".git", s)) for s in ("rebase-merge", "rebase-apply", "MERGE_HEAD", "CHERRY_PICK_HEAD")):
         problems.append(f"follow-up `git commit` fails ({rc}): {'[EISDIR] ' if 'Is a directory' in err else ''}{err[-200:]}")
+    # ... and once everything that is lying around is committed, nothing a person typed may be credited to a session
+    if not any(os.path.exists(os.path.join(sim.repo, ".git", s)) for s in ("rebase-merge", "rebase-apply", "MERGE_HEAD", "CHERRY_PICK_HEAD")):
+        sim.realgit("add", "-A")
+        sim.git("commit", "-q", "-m", "everything else")
     for blob, obj in sim.notes_list():
         raw = sim.note_raw(obj)
         if raw is None:
@@ -157,7 +171,7 @@ def after_checks(sim, notes_before=None):
         if not n["ok"]:
             problems.append(f"note of {obj[:8]} no longer parses: {n['problems'][:2]}")
     hashes = {session_hash("toolx", s): s for s in ("s1", "s2")}
-    for p in ("a.txt", "b.txt", "o.txt", "u.txt", "p.txt", "q.txt", "h.txt"):
+    for p in ("a.txt", "b.txt", "o.txt", "u.txt", "p.txt", "q.txt", "h.txt", "g.txt"):
         txt = sim.file_at("HEAD", p)
         if not txt:
             continue
@@ -237,7 +251,7 @@ def scenario(args):
             fails.append({"what": f"no fault: stdout differs from plain git: {out0[:100]!r} vs {ref_out[:100]!r}"})
         shutil.rmtree(cnt.base, ignore_errors=True)
         ks = list(range(1, n + 1))
-        if opts.get("max_k") and len(ks) > opts["max_k"] and cname not in ("commit", "commit_amend", "cherry_pick", "rebase"):
+        if opts.get("max_k") and len(ks) > opts["max_k"] and cname not in ("commit", "commit_amend", "cherry_pick", "rebase", "stash_pop"):
             ks = sorted(r.shuffle(ks)[:opts["max_k"]])
         for k in ks:
             for mode in ("FAIL", "KILL"):
